@@ -667,6 +667,53 @@ func (e *Engine) fork(st *State, alts []Alt) {
 
 type forkedSignal struct{}
 
+// forkFresh forks on the value of a fresh (unconstrained) variable: every alternative is
+// feasible by construction, so no solver query is needed; models are extended accordingly.
+func (e *Engine) forkFresh(st *State, v *Term, vals []uint64, alts []Alt) {
+	didx := len(st.decisions)
+	if didx < len(e.forced) {
+		k := e.forced[didx]
+		st.decisions = append(st.decisions, k)
+		e.addPC(st, alts[k].cond)
+		st.model = nil
+		alts[k].then(st)
+		return
+	}
+	e.stats.Forks++
+	base := append([]int(nil), st.decisions...)
+	states := make([]*State, len(alts))
+	for j := range alts {
+		if j == len(alts)-1 {
+			states[j] = st
+		} else {
+			states[j] = e.cloneState(st)
+		}
+	}
+	for j := len(alts) - 1; j >= 0; j-- {
+		s := states[j]
+		s.decisions = append(append([]int(nil), base...), j)
+		e.addPC(s, alts[j].cond)
+		if s.model != nil {
+			nm := make(map[string]uint64, len(s.model)+1)
+			for k, x := range s.model {
+				nm[k] = x
+			}
+			nm[v.name] = vals[j]
+			s.model = nm
+		}
+		func() {
+			defer e.recoverPath(s)
+			alts[j].then(s)
+		}()
+		if !s.done {
+			e.work = append(e.work, s)
+		} else {
+			e.endPath(s)
+		}
+	}
+	panic(forkedSignal{})
+}
+
 var deadline time.Time
 
 var forkSites map[string]int
